@@ -5,6 +5,7 @@ from pyvc.unit import unit
 
 ANA = S.ANA
 META = {
+    "technique": 'contract-based deductive verification: symbolic execution of the real functions against sidecar contracts (z3/cvc5) for the proved units; bounded contract evaluation (enumerated scope / independent writer) for the rest',
     "level": "other",
     "partial": True,
     "level_text": "Proof: _create_xref on a stub method whose instruction has a symbolic opcode (all 256 values): exactly "
